@@ -41,6 +41,7 @@ struct H {
   typ: bool,
   x5t: bool,
   xc: bool,
+  xa: bool, // a second custom parameter whose name sorts before "x-c"
 }
 
 impl H {
@@ -50,7 +51,7 @@ impl H {
       for b64 in [None, Some(true), Some(false)] {
         for crit in 0..CRITS.len() {
           for n in 0..(1usize << names) {
-            v.push(H { alg, b64, crit, kid: n & 1 != 0, typ: n & 2 != 0, xc: n & 4 != 0, x5t: n & 8 != 0 });
+            v.push(H { alg, b64, crit, kid: n & 1 != 0, xc: n & 2 != 0, xa: n & 4 != 0, typ: n & 8 != 0, x5t: n & 16 != 0 });
           }
         }
       }
@@ -78,6 +79,9 @@ impl H {
     if self.x5t {
       m.push("\"x5t#S256\":\"abc\"".into());
     }
+    if self.xa {
+      m.push("\"a-b\":\"first\"".into());
+    }
     if self.xc {
       m.push("\"x-c\":1".into());
     }
@@ -95,6 +99,7 @@ impl H {
       "typ" => self.typ,
       "x5t#S256" => self.x5t,
       "x-c" => self.xc,
+      "a-b" => self.xa,
       _ => false,
     }
   }
@@ -103,7 +108,7 @@ impl H {
   }
 }
 
-const NAMES: &[&str] = &["alg", "b64", "crit", "kid", "typ", "x5t#S256", "x-c"];
+const NAMES: &[&str] = &["alg", "b64", "crit", "kid", "typ", "x5t#S256", "x-c", "a-b"];
 
 /// The rules of the property statement that this header pair violates.
 fn violated(prot: Option<&H>, unprot: Option<&H>) -> Vec<&'static str> {
@@ -321,13 +326,13 @@ fn main() {
   let mut cx = Cx { rep: Report::new("C11"), jwk: vh::keys::Key::ed(1).public_jwk(None) };
   cx.rep.rule(
     "exhaustive table: every pair (protected, unprotected) with each header in {alg present/absent} x {b64 absent/true/false} x \
-     12 crit lists x every subset of shared names {kid,typ,x-c[,x5t#S256]}, plus protected-only and unprotected-only sets, evaluated at \
+     12 crit lists x every subset of shared names {kid, x-c, a-b (two custom names so that a shared custom name sits at different sorted positions)[, typ, x5t#S256]}, plus protected-only and unprotected-only sets, evaluated at \
      13 entry points (3 encoders + detached variants, add_recipient after a b64-true and a b64-false first recipient, 3 decoders + \
      detached/second-signature variants, each followed by verify with an always-Ok verifier). Every (row, entry point) evaluation is \
      distinct by construction; expected verdict = predicate written from the statement.",
   );
-  // quick: 3 shared names (8 subsets) ; thorough: 4 shared names (16 subsets)
-  let names = if args.thorough { 4 } else { 3 };
+  // quick: 3 shared names kid, x-c, a-b (8 subsets) ; thorough: 5 shared names (+ typ, x5t#S256; 32 subsets)
+  let names = if args.thorough { 5 } else { 3 };
   let hs = H::all(names);
   let n = hs.len() as u64;
   cx.rep.note("headers_per_side", json!(n));
